@@ -1,10 +1,9 @@
 SPECIFICATION Spec
 CONSTANTS
-  MaxStages = 3
+  MaxStages = 2
   Deviations = {}
 INVARIANT LeavesNothing
 INVARIANT NoWriterAfterDrain
 INVARIANT OnlyRunningThingsWhileDraining
-INVARIANT NoStuck
-PROPERTY Progress
+PROPERTY Terminates
 CHECK_DEADLOCK FALSE
